@@ -780,3 +780,110 @@ def shrink(case):
     for j, d in enumerate(case['dims']):
         if d[0] not in used:
             yield dict(case, dims=case['dims'][:j] + case['dims'][j + 1:])
+
+
+# ----------------------------------------------------------------------------- tie T: slice_dim argument bookkeeping
+def translate():
+    """regenerate coq/Gen/SliceDimSrc.v from core/_functions.py slice_dim (fail-closed): the stop derived for the
+    one-number form 'dim,i', the None padding and the cut to 4 entries, and the slice built from the three names"""
+    import ast, os
+    from translate import py2coq as P
+    res = []
+    path = os.path.join(C.SRC, 'PseudoNetCDF', 'core', '_functions.py')
+    defs = {}
+
+    def anchor(name, fn):
+        try:
+            defs[name] = fn()
+            res.append(dict(anchor='slice_dim:' + name, ok=True, detail=defs[name][:200]))
+        except Exception as e:  # noqa
+            res.append(dict(anchor='slice_dim:' + name, ok=False, detail='%s: %s' % (type(e).__name__, str(e)[:300])))
+
+    try:
+        tree = ast.parse(open(path).read())
+        fns = [n for n in tree.body if isinstance(n, ast.FunctionDef) and n.name == 'slice_dim']
+        if len(fns) != 1:
+            raise P.Untranslatable('slice_dim not found exactly once')
+        body = fns[0].body
+    except Exception as e:  # noqa
+        return [dict(anchor='slice_dim', ok=False, detail=str(e)[:300])]
+
+    def is_name(n, x):
+        return isinstance(n, ast.Name) and n.id == x
+
+    def single_stop():
+        ifs = [n for n in body if isinstance(n, ast.If) and isinstance(n.test, ast.Compare) and
+               isinstance(n.test.left, ast.Call) and is_name(n.test.left.func, 'len') and
+               is_name(n.test.left.args[0], 'slicedef') and isinstance(n.test.ops[0], ast.Eq) and
+               isinstance(n.test.comparators[0], ast.Constant) and n.test.comparators[0].value == 2]
+        if len(ifs) != 1 or len(ifs[0].body) != 1 or ifs[0].orelse:
+            raise P.Untranslatable('expected exactly one `if len(slicedef) == 2:` with one statement')
+        st = ifs[0].body[0]
+        if not (isinstance(st, ast.Expr) and isinstance(st.value, ast.Call) and isinstance(st.value.func, ast.Attribute) and
+                st.value.func.attr == 'append' and is_name(st.value.func.value, 'slicedef') and len(st.value.args) == 1):
+            raise P.Untranslatable('expected slicedef.append(<expr>)')
+        arg = st.value.args[0]
+
+        class Sub(ast.NodeTransformer):
+            def visit_Subscript(self, node):
+                idx = node.slice
+                if is_name(node.value, 'slicedef') and isinstance(idx, ast.UnaryOp) and isinstance(idx.op, ast.USub) and \
+                        isinstance(idx.operand, ast.Constant) and idx.operand.value == 1:
+                    return ast.Name(id='last', ctx=ast.Load())
+                raise P.Untranslatable('subscript other than slicedef[-1]')
+        ornone = False
+        if isinstance(arg, ast.BoolOp) and isinstance(arg.op, ast.Or) and len(arg.values) == 2 and \
+                isinstance(arg.values[1], ast.Constant) and arg.values[1].value is None:
+            ornone = True
+            arg = arg.values[0]
+        term = P.expr(Sub().visit(arg), P.Ctx())
+        if set(__import__('re').findall(r'\bv_\w+', term)) - {'v_last'}:
+            raise P.Untranslatable('free variables in ' + term)
+        if ornone:       # Python `x or None`: an integer is falsy iff it is 0
+            return 'Definition single_stop (v_last : Z) : option Z :=\n  if (%s =? 0) then None else Some (%s).\n' % (term, term)
+        return 'Definition single_stop (v_last : Z) : option Z := Some (%s).\n' % term
+
+    def pad():
+        for n in body:
+            if isinstance(n, ast.Assign) and len(n.targets) == 1 and is_name(n.targets[0], 'slicedef') and \
+                    isinstance(n.value, ast.Subscript) and isinstance(n.value.slice, ast.Slice):
+                v, sl = n.value.value, n.value.slice
+                if sl.lower is None and sl.step is None and isinstance(sl.upper, ast.Constant) and isinstance(sl.upper.value, int) and \
+                        isinstance(v, ast.BinOp) and isinstance(v.op, ast.Add) and is_name(v.left, 'slicedef') and \
+                        isinstance(v.right, ast.List) and len(v.right.elts) == 1 and \
+                        isinstance(v.right.elts[0], ast.Constant) and v.right.elts[0].value is None:
+                    return 'Definition pad_len : nat := %d%%nat.\n' % sl.upper.value
+        raise P.Untranslatable('expected slicedef = (slicedef + [None, ])[:N]')
+
+    def unpack():
+        ok1 = any(isinstance(n, ast.Assign) and isinstance(n.targets[0], ast.Tuple) and
+                  [getattr(e, 'id', None) for e in n.targets[0].elts] == ['dimkey', 'dmin', 'dmax', 'dstride'] and
+                  is_name(n.value, 'slicedef') for n in body)
+        ok2 = False
+        for n in ast.walk(fns[0]):
+            if isinstance(n, ast.Subscript) and isinstance(n.slice, ast.Slice) and is_name(n.slice.lower, 'dmin') and \
+                    is_name(n.slice.upper, 'dmax') and is_name(n.slice.step, 'dstride'):
+                ok2 = True
+        if not (ok1 and ok2):
+            raise P.Untranslatable('expected `dimkey, dmin, dmax, dstride = slicedef` and a subscript [dmin:dmax:dstride]')
+        return ('(* the padded argument list is unpacked as (dimkey, dmin, dmax, dstride) and used as [dmin:dmax:dstride] *)\n'
+                'Definition sel_of_padded (l : list (option Z)) : option sel :=\n'
+                '  match l with [a; b; c] => Some (SSlice a b c) | _ => None end.\n')
+
+    anchor('single_stop', single_stop)
+    anchor('pad', pad)
+    anchor('unpack', unpack)
+    if all(r['ok'] for r in res):
+        text = ('(* GENERATED by harness/props/c02.py translate() from core/_functions.py slice_dim — do not edit *)\n'
+                'From PNC Require Import Base.Util Base.ArrFlat.\nLocal Open Scope Z_scope.\n\n' +
+                defs['single_stop'] + defs['pad'] + defs['unpack'] +
+                '\n(* numbers after the dimension name -> selector (None = the call raises) *)\n'
+                'Definition sel_of_args (args : list (option Z)) : option sel :=\n'
+                '  match args with\n'
+                '  | [] => None\n'
+                '  | [None] => None\n'
+                '  | [Some a] => sel_of_padded (firstn (pad_len - 1) ([Some a; single_stop a] ++ [None]))\n'
+                '  | _ => sel_of_padded (firstn (pad_len - 1) (args ++ [None]))\n'
+                '  end.\n')
+        P.write_if_changed(os.path.join(C.COQ, 'Gen', 'SliceDimSrc.v'), text)
+    return res
